@@ -36,7 +36,7 @@ CONFIGS = {
     "client-all": ["-p", "aldrin", "-p", "aldrin-broker", "--lib", "--all-features"],
 }
 
-NARROW = {"C14": "core-all", "C15": "client-all", "C02": "broker-all", "C03": "broker-all", "C04": "client-all", "C05": "client-all", "C09": "client-all", "C10": "broker-all", "C11": "client-all",
+NARROW = {"C14": "core-all", "C15": "client-all", "C19": "client-all", "C02": "broker-all", "C03": "broker-all", "C04": "client-all", "C05": "client-all", "C09": "client-all", "C10": "broker-all", "C11": "client-all",
           "C01": "core-all", "C07": "core-all", "C08": "core-all", "C13": "core-all", "C20": "core-all", "C06": "client-all", "C12": "client-all"}
 
 
